@@ -1,87 +1,13 @@
 ------------------------------ MODULE C01_Kernel ------------------------------
-(* S-specification for C01: the kernel as a machine.                                   *)
+(* S-specification for C01: the kernel as a saturation machine (see C01_Rules for the   *)
+(* argument pools and the derivation attempts).                                         *)
 (*   state   : thms  -- the set of sequents derived so far                              *)
 (*             log   -- the derivation attempts of the last round (spec -> code vectors)*)
 (*   action  : Saturate -- add every one-step consequence of thms under the 15 rules of *)
 (*             lib/Kernel.tla with arguments from typed AND adversarial pools           *)
 (*   property: every derived sequent is well-typed and valid in every finite standard   *)
 (*             model with |tyvar| <= N (HolSem), and is not  |- false-like (!A. A)       *)
-(* The vectors written at the end are replayed into kernel/thm.py and the checker.     *)
-EXTENDS Kernel, HolSem, FiniteSets, Json, IOUtils
-
-CONSTANTS MaxRound, MaxSize, MaxHyps, N, EmitRejected
-
-\* ---------------------------------------------------------------- signature
-TA == <<"tv","a">>
-SA == <<"stv","a">>
-vA == <<"var","A",BoolT>>       vB == <<"var","B",BoolT>>
-sP == <<"svar","P",BoolT>>      sQ == <<"svar","Q",BoolT>>
-vx == <<"var","x",TA>>          vy == <<"var","y",TA>>
-sx == <<"svar","x",TA>>         \* same name as the variable x, schematic
-xb == <<"var","x",BoolT>>       \* same name as x at another type
-vf == <<"var","f",FunT(TA,TA)>>
-vR == <<"var","R",FunT(TA,BoolT)>>
-sR == <<"svar","R",FunT(TA,BoolT)>>
-sz == <<"svar","z",SA>>         \* schematic variable of schematic type
-B0 == <<"bound",0>>
-
-TermsA == {vx, vy, sx, App(vf, vx), App(vf, sx)}
-Atoms == {vA, vB, sP, sQ, App(vR, vx), App(vR, sx), App(sR, vx), MkEq(vx, vy), MkEq(sx, vx), xb}
-Props1 == Atoms \cup { Imp(a, b) : a \in {vA, sP, App(vR, vx)}, b \in {vA, vB, sP} }
-                \cup { Forall(v, b) : v \in {vx, sx}, b \in {App(vR, vx), App(vR, sx), MkEq(vx, vx)} }
-                \cup { Forall(vA, vA), Forall(sP, sP), Forall(vA, Imp(vA, vA)) }
-Redexes == { App(Lambda(vx, b), a) : b \in {App(vR, vx), App(vf, vx), vy}, a \in {vx, sx, App(vf, vy)} }
-           \cup { App(Lambda(sx, App(vR, sx)), vx) }
-\* adversarial arguments: ill-typed applications, loose bound variables, non-boolean "propositions"
-Adversarial == { App(vA, vx), App(vR, vA), App(vf, vA), B0, App(vR, B0), vx, vf,
-                 <<"abs", TA, <<"bound", 1>> >>, App(Lambda(vx, App(vR, vx)), vA) }
-AssumePool == Props1 \cup Adversarial
-ReflPool == TermsA \cup {vA, sP, vf, vR, Lambda(vx, App(vR, vx))} \cup Redexes \cup Adversarial
-BetaPool == Redexes \cup {vx, App(vf, vx)} \cup Adversarial
-VarPool == {vx, vy, sx, vA, sP, xb, vf, sR} \cup {App(vf, vx), B0, <<"const","c",TA>>}
-ElimPool == TermsA \cup {vA, vB, sP, Imp(vA, vA), Forall(vA, vA)} \cup {App(vA, vx), B0}
-NoArg == <<"none">>
-EmptyAL == <<>>
-InstPool == { [ty |-> EmptyAL, sv |-> sv] : sv \in
-               { <<>>, << <<"P", vA>> >>, << <<"P", Imp(vA, vA)>> >>, << <<"P", Forall(vA, vA)>> >>, << <<"P", sQ>> >>,
-                 << <<"P", sQ>>, <<"Q", sP>> >>, << <<"x", vx>> >>, << <<"x", vy>> >>, << <<"x", App(vf, vx)>> >>,
-                 << <<"R", vR>> >>, << <<"R", Lambda(vx, MkEq(vx, vx))>> >>, << <<"P", vx>> >>, << <<"x", vA>> >>,
-                 << <<"z", vx>> >>, << <<"z", vA>> >> } }
-TyInstPool == { << <<"a", BoolT>> >>, << <<"a", TA>> >>, << <<"a", FunT(TA, TA)>> >>, <<>> }
-
-\* ---------------------------------------------------------------- derivation attempts
-\* uniform argument record so that TLC never compares values of different kinds
-ArgT(t) == [t |-> t, ty |-> EmptyAL, sv |-> EmptyAL]
-ArgI(i) == [t |-> NoArg, ty |-> i.ty, sv |-> i.sv]
-ArgY(ti) == [t |-> NoArg, ty |-> ti, sv |-> EmptyAL]
-Att(rule, arg, prems, res) == [rule |-> rule, arg |-> arg, prems |-> prems, res |-> res]
-
-\* the reference outcome of a rule application: the sequent, or ErrS when the rule does not apply
-\* or its result is not a well-typed sequent (check_thm_type)
-Chk(th) == IF IsErrS(th) THEN ErrS ELSE IF SeqWellTyped(th) THEN th ELSE ErrS
-WT(t) == WellTyped(t)
-Attempts(S) ==
-     { Att("assume", ArgT(a), <<>>, Chk(Assume(a))) : a \in AssumePool }
-  \cup { Att("reflexive", ArgT(a), <<>>, Chk(Reflexive(a))) : a \in ReflPool }
-  \cup { Att("beta_conv", ArgT(a), <<>>, IF WT(a) THEN Chk(BetaConvR(a)) ELSE ErrS) : a \in BetaPool }
-  \cup UNION { { Att("implies_intr", ArgT(a), <<th>>, IF WT(a) THEN Chk(ImpliesIntr(a, th)) ELSE ErrS)
-                   : a \in th.h \cup {vA, sP, App(vR, vx), App(vA, vx)} } : th \in S }
-  \cup { Att("symmetric", ArgT(NoArg), <<th>>, Chk(Symmetric(th))) : th \in S }
-  \cup UNION { { Att("abstraction", ArgT(v), <<th>>, Chk(Abstraction(v, th))) : v \in VarPool } : th \in S }
-  \cup UNION { { Att("forall_intr", ArgT(v), <<th>>, Chk(ForallIntr(v, th))) : v \in VarPool } : th \in S }
-  \cup UNION { { Att("forall_elim", ArgT(s), <<th>>, IF WT(s) THEN Chk(ForallElim(s, th)) ELSE ErrS) : s \in ElimPool }
-                 : th \in { x \in S : IsAll(x.c) } }
-  \cup UNION { { Att("substitution", ArgI(i), <<th>>,
-                     IF \A k \in 1..Len(i.sv) : WT(i.sv[k][2]) THEN Chk(Substitution(i, th)) ELSE ErrS) : i \in InstPool } : th \in S }
-  \cup UNION { { Att("subst_type", ArgY(ti), <<th>>, Chk(SubstType(ti, th))) : ti \in TyInstPool } : th \in S }
-  \cup UNION { { Att("implies_elim", ArgT(NoArg), <<t1, t2>>, Chk(ImpliesElim(t1, t2))) : t2 \in S } : t1 \in { x \in S : IsImp(x.c) } }
-  \cup UNION { { Att("equal_elim", ArgT(NoArg), <<t1, t2>>, Chk(EqualElim(t1, t2))) : t2 \in S } : t1 \in { x \in S : IsEq(x.c) } }
-  \cup UNION { { Att("equal_intr", ArgT(NoArg), <<t1, t2>>, Chk(EqualIntr(t1, t2))) : t2 \in { x \in S : IsImp(x.c) } } : t1 \in { x \in S : IsImp(x.c) } }
-  \cup UNION { { Att("transitive", ArgT(NoArg), <<t1, t2>>, Chk(Transitive(t1, t2))) : t2 \in { x \in S : IsEq(x.c) } } : t1 \in { x \in S : IsEq(x.c) } }
-  \cup UNION { { Att("combination", ArgT(NoArg), <<t1, t2>>, Chk(Combination(t1, t2))) : t2 \in { x \in S : IsEq(x.c) } } : t1 \in { x \in S : IsEq(x.c) } }
-
-Keep(th) == ~IsErrS(th) /\ Cardinality(th.h) <= MaxHyps /\ Size(th.c) <= MaxSize /\ \A x \in th.h : Size(x) <= MaxSize
-
+EXTENDS C01_Rules
 VARIABLES thms, round, log
 vars == <<thms, round, log>>
 Init == thms = {} /\ round = 0 /\ log = {}
